@@ -104,15 +104,20 @@ impl Gen {
     fn old_key(&mut self, w: &World, mid: usize) -> Option<u64> {
         let m = w.map(mid)?;
         let mut v = vec![];
-        m.verif_old_keys(64, |k| v.push(k.k()));
+        m.verif_old_keys(16, |k| v.push(k.k()));
         if v.is_empty() {
-            None
-        } else if self.rng.chance(1, 3) {
-            // the far end of the cursor's range
-            let all = old_keys(m);
-            Some(*self.rng.pick(&all))
-        } else {
-            Some(*self.rng.pick(&v))
+            return None;
+        }
+        match self.rng.below(3) {
+            // the very next element the move cursor will yield
+            0 => Some(v[0]),
+            // within the first group(s) of the cursor's range
+            1 => Some(*self.rng.pick(&v)),
+            // anywhere in the old table, typically far from the cursor
+            _ => {
+                let all = old_keys(m);
+                Some(*self.rng.pick(&all))
+            }
         }
     }
     /// a key, biased towards the old table when a resize is pending
@@ -173,7 +178,7 @@ impl Gen {
                 }
             } else {
                 match self.rng.below(14) {
-                    0 => Step::Insert(val),
+                    0 => Step::Insert(val, a),
                     1 | 2 => Step::OrInsert(if raw { self.rng.below(2) as u8 } else { self.rng.below(4) as u8 }, val, a),
                     3 => Step::OccRemove,
                     4 => Step::OccRemoveEntry,
@@ -247,6 +252,37 @@ impl Gen {
         // steer towards the target size: grow to it, then churn around it
         let growing = len < self.target;
         let d = self.rng.below(100);
+        // A phase that plain insertion never rests in: everything parked, main table empty (right
+        // after a growing `reserve`, or after removing exactly the main table's elements).  Look at
+        // the map through every observer before the next insert ends the phase.
+        if split && o.mi == 0 && o.len > 0 && self.rng.chance(3, 5) && !matches!(self.slice, Slice::Big) {
+            let k = self.some_key(w, 0);
+            return match self.rng.below(16) {
+                0 | 1 | 2 => (0, Op::Get { k, variant: self.rng.below(8) as u8 }),
+                3 => (0, Op::Get { k, variant: 2 }),
+                4 => (0, Op::Iter { variant: self.rng.below(5) as u8 }),
+                5 => (0, Op::Dump),
+                6 => (0, Op::GetMut { k, add: 1 }),
+                7 => (0, Op::Remove { k, variant: self.rng.below(2) as u8 }),
+                8 => (1, Op::Clone { src: 0 }),
+                9 => {
+                    if w.map(1).is_some() { (1, Op::CloneFrom { src: 0 }) } else { (1, Op::Clone { src: 0 }) }
+                }
+                10 => {
+                    if w.map(1).is_some() { (0, Op::Eq { other: 1 }) } else { (1, Op::Clone { src: 0 }) }
+                }
+                11 => (0, Op::Entry { via: self.rng.below(4) as u8, k, steps: vec![Step::OccGetMut(0, 1)] }),
+                12 => (0, Op::Retain { p: self.pred(w, 0) }),
+                13 => {
+                    if self.rng.chance(1, 3) { (0, Op::Clear) } else { (0, Op::IterMut { add: 1, variant: self.rng.below(3) as u8 }) }
+                }
+                14 => {
+                    let p = self.pred(w, 0);
+                    (0, Op::DrainFilter { p, take: usize::MAX, forget: false })
+                }
+                _ => (0, Op::Drain { take: self.rng.below(len as u64 + 1) as usize, forget: false }),
+            };
+        }
         match self.slice {
             Slice::Big => {
                 if growing && d < 85 {
@@ -308,7 +344,6 @@ impl Gen {
             }
             pick -= wgt;
         }
-        let _ = split;
         match code {
             0 => (0, Op::Insert { k: self.fresh(), v: self.rng.below(1000) }),
             1 => (0, Op::Insert { k: self.some_key(w, 0), v: self.rng.below(1000) }),
